@@ -2,6 +2,7 @@
 import VDriver.Util
 import VModel.Auth
 import VModel.AuthSpec
+import VModel.AuthRules
 namespace V.Driver.AuthOps
 open V V.Json V.Driver V.Auth
 
@@ -30,12 +31,14 @@ def handle (op : String) (args : Array String) : Option String :=
     | some e, some as =>
       let prov := Provider.ofEvents as
       let m := (allowedFresh e prov (sig == "1")).coarse
-      -- specification stream (C08): an escalating power-levels event must be rejected
+      -- specification stream (C07): the verdict of the transcribed authorisation rules with the departures of DESIGN.md §6.1
+      let spec := AuthRules.showVerdict (AuthRules.rulesAllow AuthRules.Departures.library e prov (sig == "1"))
+      -- specification stream (C08): an escalating power-levels event must be rejected (takes precedence)
       if e.type == b!"m.room.power_levels" && prov.valid then
         match AuthSpec.plMustReject e prov with
         | some true => some (m ++ "\trej")
-        | _ => some m
-      else some m
+        | _ => some (m ++ "\t" ++ spec)
+      else some (m ++ "\t" ++ spec)
     | _, _ => some "bad-op"
   | _, _ => none
 
